@@ -204,6 +204,34 @@ def impl_reparse(spec):
     return canon_call(lambda: P.Address(str(build(spec))), canon_addr)
 
 
+def run_history(start, args):
+    """one object: built by `start`, then decode_address(x) for every x of args; refusals of all but the last are swallowed"""
+    a = build(start)
+    for x in args[:-1]:
+        try:
+            a.decode_address(pyarg(x))
+        except Exception:
+            pass
+    a.decode_address(pyarg(args[-1]))
+    return a
+
+
+def canon_hist(a, last):
+    """like canon_addr, but the IP helper attributes are observed only if the last notation sets them
+    (decode_address does not reset them: after an IP notation they stay on the object)"""
+    P = _pdu()
+    out = [a.addrType] + coz(a.addrNet) + cmac(a.addrAddr, a.addrLen) + croute(a.addrRoute)
+    out += cip(a) if 'addrIP' in P.Address(pyarg(last)).__dict__ else [0]
+    out += canon_call(lambda: str(a), cstr)
+    for t in tuples_of(a):
+        out += ctuple(t)
+    return out
+
+
+def impl_hist(start, args):
+    return canon_call(lambda: run_history(start, args), lambda a: canon_hist(a, args[-1]))
+
+
 def impl_cmp(sa, sb):
     try:
         a, b = build(sa), build(sb)
@@ -255,6 +283,13 @@ def case_eqc(sa, arg):
     exp = impl_eq_coerce(sa, arg)
     return Case('eq-coerce', 'canon_bool_r (eq_coerce %s %s)' % (coqctor(sa), coqarg(arg)), exp, key=('eqc', repr(sa), repr(arg)),
                 nontrivial=exp[0] == 0, desc={'op': 'eq-coerce', 'a': jspec(sa), 'arg': jspec((arg,))[0]})
+
+
+def case_hist(start, args):
+    exp = impl_hist(start, args)
+    hist = '[' + ';'.join(coqarg(a) for a in args[:-1]) + ']'
+    return Case('history', 'canon_addr_r (decode_on %s %s)' % (hist, coqarg(args[-1])), exp, key=('hist', repr(start), repr(args)),
+                nontrivial=exp[0] == 0, desc={'op': 'history', 'start': jspec(start), 'args': jspec(tuple(args))})
 
 
 def case_pack(host, port):
@@ -397,6 +432,35 @@ def ctor_grid(mac, nets=(1, 65534)):
     return sp
 
 
+H_ACCEPTED = [('str', '7'), ('str', '*'), ('str', '*:*'), ('str', '5:*'), ('str', '5:7'), ('str', '0:9'), ('str', '0x0102'), ('str', '6:0x0102'),
+              ('str', "X'0a'"), ('str', '1.2.3.4'), ('str', '5:1.2.3.4:47809'), ('str', '1.2.3.4/24:1'), ('str', '01:02:03:04:05:06'),
+              ('str', '7@6'), ('str', '5:7@1.2.3.4'), ('str', '*@9'), ('int', 9), ('bytes', b'\x07'), ('bytearray', b'\x01\x02\x03'),
+              ('bytes', bytes([1, 2, 3, 4, 0xba, 0xc0])), ('tup', '1.2.3.4', 47808), ('tup', 0x0a000001, 1)]
+# refused notations; several raise only AFTER having stored something (network, octets, port, route)
+H_REFUSED = [('str', '5:256'), ('str', '5:300'), ('str', '65535:5'), ('str', '65535:*'), ('str', '5:1.2.3.4:70000'), ('str', '5:999.1.1.1'),
+             ('str', '1.2.3.4/33'), ('str', '5:1.2.3.4/40'), ('str', '7@300'), ('str', '5:0x0102@256'), ('str', '5:*@999.1.1.1'), ('str', '*:5'),
+             ('str', 'bad'), ('str', ''), ('str', "5:X'0'"), ('int', 256), ('int', -1), ('other', 'none'), ('tup', '1.2.3.4', 70000),
+             ('tup', '999.1.1.1', 1)]
+H_STARTS = [('A0',), ('RS', 5, ('int', 7)), ('RS', 5, ('bytes', b'\x01\x02')), ('RB', 5), ('LS', ('int', 7)), ('LB',), ('GB',),
+            ('A1', ('str', '5:7@6')), ('A2', 9, ('str', '1.2.3.4'))]
+
+
+def histories(rng, tier):
+    """(start constructor, [notations]) with an accepted last notation: every (earlier notation, last notation) pair on a fresh
+    object, every (non-null start object, last notation), and sampled triples"""
+    out = []
+    for prev in H_ACCEPTED + H_REFUSED:
+        for last in H_ACCEPTED:
+            out.append((('A0',), [prev, last]))
+    for st in H_STARTS[1:]:
+        for last in H_ACCEPTED:
+            out.append((st, [last]))
+    allh = H_ACCEPTED + H_REFUSED
+    for _ in range(200 if tier == 'quick' else 3000):
+        out.append((rng.choice(H_STARTS), [rng.choice(allh), rng.choice(allh), rng.choice(H_ACCEPTED)]))
+    return out
+
+
 def pool(rng, tier, lenient=True):
     """denoted addresses -> several spellings each (constructor specs); used for == / hash / dict membership.
     lenient=False leaves out the spellings the property statement does not list (leading zeros, trailing newline, ethernet)."""
@@ -528,6 +592,15 @@ def cases(rng, tier):
     routed = [S(x) for x in ['5', '5@6', '5@7', '5@0x06', '5@1.2.3.4', '5@1.2.3.4:47808', '6@6', '1:5@6', '1:5', '*@6', '*', '*:*@6', '*:*@7', '1:*@6']]
     for a, b in itertools.product(routed, routed):
         out.append(case_cmp(a, b))
+    # object history: decode_address on an object that already holds state (accepted, refused, typed constructor)
+    hs = histories(rng, tier)
+    if tier == 'quick':
+        hs = rng.sample(hs[:len(hs) - 200], 320) + hs[-100:]
+    for st, args in hs:
+        out.append(case_hist(st, args))
+    # also a refused last notation: both sides must refuse with the same class whatever came before
+    for _ in range(40 if tier == 'quick' else 600):
+        out.append(case_hist(rng.choice(H_STARTS), [rng.choice(H_ACCEPTED), rng.choice(H_REFUSED)]))
     # == against an un-coerced right-hand side
     for sp in rng.sample(specs, 30 if tier == 'quick' else 100):
         for a in [('str', '5'), ('int', 5), ('bytes', b'\x05'), ('str', '1.2.3.4'), ('tup', '1.2.3.4', 47808), ('str', '5:5'), ('str', '*'), ('str', 'bad'),
@@ -668,6 +741,8 @@ def direct(rng, tier, focus=()):
        D1 every accepted notation yields the denoted type / network / octets / IP values (ipaddress as oracle);
        D2 what denotes nothing (network > 65534, station > 255, port > 65535, mask > 32, stray text) is refused (any exception);
        D3 Address(str(a)) == a with equal hash, for route-free non-null addresses with >= 1 octet;
+       D5 decode_address on an object that already holds state (earlier accepted / refused notation, typed constructor) gives the same
+          address as a fresh Address(notation): fields, str, ==, hash, dict membership;
        D4 == is reflexive, symmetric, transitive and holds exactly between spellings of the same address;
           equal addresses have equal hash / _tuple and find each other in a dict."""
     P = _pdu()
@@ -804,6 +879,49 @@ def direct(rng, tier, focus=()):
                 fail('bytearray-argument-raises', ('A1', ('bytearray', m)), ctor=cname, exc=repr(e)[:120])
     samples.append({'direct': 'denotation+refusal+print/parse', 'first_specs': [jspec(s) for s in specs[:3]], 'count': len(specs)})
 
+    # D5 object history: the final object of successive decode_address calls on ONE object is the address of the last notation
+    for st, args in histories(rng, tier):
+        n += 1
+        last = args[-1]
+        try:
+            fresh = P.Address(pyarg(last))
+        except Exception:
+            continue
+        try:
+            a = run_history(st, args)
+        except Exception as e:
+            fail('history-last-notation-refused', st, args=jspec(tuple(args)), exc=repr(e)[:120])
+            continue
+        nontriv.add(('hist', repr(st), repr(args)))
+        why = None
+        for fld in ('addrType', 'addrNet', 'addrAddr', 'addrLen'):
+            if getattr(a, fld) != getattr(fresh, fld):
+                why = '%s %r != %r' % (fld, getattr(a, fld), getattr(fresh, fld))
+                break
+        if why is None and (a.addrRoute is None) != (fresh.addrRoute is None):
+            why = 'addrRoute %r != %r' % (a.addrRoute, fresh.addrRoute)
+        if why is None and a.addrRoute is not None and not (a.addrRoute == fresh.addrRoute):
+            why = 'addrRoute %r != %r' % (a.addrRoute, fresh.addrRoute)
+        if why is None and 'addrIP' in fresh.__dict__:
+            for fld in IPATTRS:
+                if getattr(a, fld, 'missing') != getattr(fresh, fld):
+                    why = '%s %r != %r' % (fld, getattr(a, fld, 'missing'), getattr(fresh, fld))
+                    break
+        try:
+            if why is None and str(a) != str(fresh):
+                why = 'str %r != %r' % (str(a), str(fresh))
+            if why is None and not (a == fresh and fresh == a):
+                why = 'not == to a fresh Address of the same notation'
+            if why is None and (hash(a) != hash(fresh) or a._tuple() != fresh._tuple()):
+                why = 'hash / _tuple differ from a fresh Address of the same notation'
+            if why is None and ({fresh: 1}.get(a) != 1 or {a: 1}.get(fresh) != 1):
+                why = 'misses the dict entry of a fresh Address of the same notation'
+        except Exception as e:
+            why = 'raises %r' % (e,)
+        if why:
+            fail('history-dependent-address', st, args=jspec(tuple(args)), why=why[:200])
+    samples.append({'direct': 'object history', 'example': {'start': ['A0'], 'args': [['str', '5:256'], ['str', '7']]}})
+
     # D4 equality / hash over a pool of equivalent spellings
     plist = pool(rng, tier, lenient=False)
     objs = []
@@ -882,6 +1000,12 @@ def replay(payload):
         return
     print('replay', f)
     sp = unjspec(f['spec'])
+    if 'args' in f:
+        args = list(unjspec(f['args']))
+        print('one object, successive decode_address:', impl_hist(sp, args))
+        print('fresh Address(last notation)         :', impl_addr(('A1', args[-1])))
+        print('model                                :', core.coq_eval(COQ_IMPORTS, 'canon_addr_r (decode_on [] %s)' % coqarg(args[-1]))[0])
+        return
     print('denotes (independent reading):', denoted_of_spec(sp))
     print('implementation:', impl_addr(sp))
     print('model         :', core.coq_eval(COQ_IMPORTS, 'canon_addr_r %s' % coqctor(sp))[0])
